@@ -303,15 +303,21 @@ func main() {
 		{9, 2, 2},                     // moveTo(1) 1 1
 		{9, 2, 2, 18, 2, 2, 2, 2},     // moveTo + lineTo(2)
 		{9, 2, 2, 18, 2, 2, 2, 2, 15}, // + closePath
-		{uint32(1<<28)<<3 | 1, 2, 2},  // moveTo with count 2^28
 		{9, 2, 2, uint32(1<<29-1)<<3 | 2, 2, 2},
 		{9, 2, 2, 15, 15},
-		{15},
 		{9, 2},
 		{17, 2, 2, 4, 4}, // moveTo(2): multipoint
 	}
-	r.ExploreSharded("mvt-grammar", "hand-built tiles: layer fields present/absent/repeated, feature with id/tags/type/geometry each present or absent, 11 geometry command streams incl. counts 2^28 and 2^29-1, value messages of every kind, unknown fields; every truncation", mc.Opts{MaxDev: -1}, 16, func(c *mc.Ctx) {
-		gi := c.Choose(len(geoms))
+	// first command word = every command id x boundary count, with several tails
+	for _, cmd := range []uint32{1, 2, 7, 0, 3} {
+		for _, cnt := range []uint32{0, 1, 2, 1 << 20, 1 << 24, 1 << 28, 1<<29 - 1} {
+			w := cnt<<3 | cmd
+			geoms = append(geoms, []uint32{w}, []uint32{w, 2, 2}, []uint32{w, 2, 2, 18, 2, 2}, []uint32{9, 2, 2, w, 2, 2}, []uint32{9, 2, 2, 10, 2, 2, w})
+		}
+	}
+	baseGeoms := 9
+	r.ExploreSharded("mvt-grammar", "hand-built tiles: layer fields present/absent/repeated, feature with id/tags/type/geometry each present or absent, 9 geometry command streams, value messages of every kind, unknown fields; every truncation", mc.Opts{MaxDev: -1}, 16, func(c *mc.Ctx) {
+		gi := c.Choose(baseGeoms)
 		if !r.Owned(c, gi) {
 			return
 		}
@@ -372,6 +378,32 @@ func main() {
 		n := c.Choose(len(t.b) + 1)
 		b := t.b[:len(t.b)-n]
 		accepted(c, decodeMVT(c, b))
+	})
+
+	r.ExploreSharded("mvt-geometry-commands", fmt.Sprintf("%d geometry command streams (every command id 0,1,2,3,7 x counts {0,1,2,2^20,2^24,2^28,2^29-1} as the first, second or last command word, with and without parameters) x geometry type 0..4 x every truncation of the tile", len(geoms)-baseGeoms), mc.Opts{MaxDev: -1}, 16, func(c *mc.Ctx) {
+		gi := baseGeoms + c.Choose(len(geoms)-baseGeoms)
+		if !r.Owned(c, gi) {
+			return
+		}
+		var f pb
+		if t := c.Choose(6); t > 0 {
+			f.uv(3, uint64(t-1))
+		}
+		var pk pb
+		for _, v := range geoms[gi] {
+			pk.varint(uint64(v))
+		}
+		f.bytes(4, pk.b)
+		var l pb
+		l.bytes(1, []byte("n"))
+		l.bytes(2, f.b)
+		if c.Bool() {
+			l.bytes(2, f.b)
+		}
+		var t pb
+		t.bytes(3, l.b)
+		n := c.Choose(len(t.b) + 1)
+		accepted(c, decodeMVT(c, t.b[:len(t.b)-n]))
 	})
 
 	// 2. WKB header combinations
